@@ -17,7 +17,8 @@ LEAVES = ["0", "1", "-1", "2147483647", "-2147483648", "4294967296", "9223372036
           "(-9223372036854775807 - 1)",
           "0.0", "1.5", "-0.25", "3.0", "10000000000.0", "0.00001", "123456.789", "-7.0",
           '""', '"a"', '"a\\"b"', '"back\\\\slash"', '"nl\\nx"', '"cr\\rx"', '"({"', '"([1:2])"', '"a,b"', '"x:y"', '"/"', '"#"',
-          '"tab\\tx"', 'sprintf("%c%c", 195, 169)', '"ends\\\\"', "({ })", "([ ])"]
+          '"tab\\tx"', 'sprintf("%c%c", 195, 169)', '"ends\\\\"', "({ })", "([ ])",
+          '"q\\"x\\ny"', '"b\\\\s\\nz"', '"cr\\rthen\\nlf"', '"\\n\\"\\n"']
 KEYS = ["1", "-1", '"a"', '"a\\"b"', '"nl\\nx"', "1.5"]
 
 
